@@ -74,14 +74,14 @@ theorem getslice_sem (items : List IdxItem) (a r : NT) (env : Env)
 theorem outReduce_binop_total {op : String} (h : outReduceOps.contains op = true) (x y : XR) :
     (binop op x y).isSome := by
   simp only [outReduceOps, List.contains_eq_mem, List.mem_cons, List.mem_nil_iff, or_false, decide_eq_true_eq] at h
-  rcases h with h | h | h | h | h | h <;> subst h <;> simp [binop]
+  rcases h with h | h | h | h <;> subst h <;> simp [binop]
 
 theorem outReduce_foldOp_total {op : String} (h : outReduceOps.contains op = true) (l : List XR) :
     (foldOp op l).isSome := by
   cases l with
   | nil =>
     simp only [outReduceOps, List.contains_eq_mem, List.mem_cons, List.mem_nil_iff, or_false, decide_eq_true_eq] at h
-    rcases h with h | h | h | h | h | h <;> subst h <;> simp [foldOp, unitOf]
+    rcases h with h | h | h | h <;> subst h <;> simp [foldOp, unitOf]
   | cons x xs => exact foldlM_binop_total (outReduce_binop_total h) xs x
 
 theorem shapeOnly_reduceAxes (base : String) (hb : outReduceOps.contains base = true)
